@@ -14,7 +14,7 @@ for m in selftest/mutants/*.diff seeded/*/patch.diff; do
   esac
   [ -n "$prop" ] || { echo "SKIP $m (no detecting check recorded)" | tee -a $out; continue; }
   res=$(tools/try_mutant.sh $m $prop 2>&1)
-  if echo "$res" | grep -q "DOES NOT BUILD\|does not apply"; then echo "BROKEN $m: $(echo "$res" | head -2 | tr '\n' ' ')" | tee -a $out; fail=1; continue; fi
+  if echo "$res" | grep -q "MUTANT DOES NOT BUILD\|^patch does not apply"; then echo "BROKEN $m: $(echo "$res" | head -2 | tr '\n' ' ')" | tee -a $out; fail=1; continue; fi
   for p in $prop; do
     if echo "$res" | grep -q "VIOLATION property=$p"; then
       echo "CAUGHT $m $p :: $(echo "$res" | grep -m1 '^FAIL\|^UNDECIDED\|^UNRESOLVED' | cut -c1-160)" | tee -a $out
